@@ -15,7 +15,14 @@ package main
 
 import (
 	"context"
+	"crypto/ecdsa"
+	"crypto/elliptic"
+	"crypto/rand"
+	"crypto/tls"
+	"crypto/x509"
+	"crypto/x509/pkix"
 	"fmt"
+	"math/big"
 	"net"
 	"os"
 	"runtime"
@@ -69,6 +76,116 @@ type world struct {
 	// lives of the same Server value: logs of the lives that are over
 	past     [][]string
 	panicked []string // a serve / Shutdown call panicked (recovered by the harness)
+
+	failSeq int         // ids of the failing start calls of this life: 50, 51, ...
+	viols   [][2]string // direct-oracle failures found while the plan ran (key, what); reported by judge
+	abort   bool        // the rest of the plan makes no sense any more
+}
+
+func (w *world) addViol(key, what string) {
+	w.mu.Lock()
+	w.viols = append(w.viols, [2]string{key, what})
+	w.mu.Unlock()
+}
+
+// ---------------------------------------------------------------- start calls that fail by themselves
+var failKinds = []string{"LS-bad-network", "LS-tls-no-certificates", "LS-tcp-address-in-use", "LS-udp-address-in-use",
+	"LS-bad-port", "AS-no-listeners", "AS-closed-udpconn"}
+
+// failStart makes one start call on srv (which must not be serving) that has to fail by
+// itself, before anything is served: ListenAndServe with a bad network, tcp-tls without
+// certificates, an address in use (tcp / udp: a second socket holds the port), an invalid port;
+// ActivateAndServe without listeners, with a closed *net.UDPConn (setUDPSocketOptions fails).
+// Every field it sets for the purpose is put back.  Result: "fl" (an error of its own), "se"
+// (the already-started error), "ok" (returned nil), "hung", "skip" (could not be provoked).
+func failStart(srv *dns.Server, kind int) (string, string) {
+	oNet, oAddr, oTLS, oPC, oL := srv.Net, srv.Addr, srv.TLSConfig, srv.PacketConn, srv.Listener
+	defer func() { srv.Net, srv.Addr, srv.TLSConfig, srv.PacketConn, srv.Listener = oNet, oAddr, oTLS, oPC, oL }()
+	listen := true
+	var closers []func()
+	defer func() {
+		for _, c := range closers {
+			c()
+		}
+	}()
+	switch failKinds[kind%len(failKinds)] {
+	case "LS-bad-network":
+		srv.Net, srv.Addr = "bogus", "127.0.0.1:0"
+	case "LS-tls-no-certificates":
+		srv.Net, srv.Addr, srv.TLSConfig = "tcp-tls", "127.0.0.1:0", nil
+	case "LS-tcp-address-in-use":
+		b, err := net.Listen("tcp", "127.0.0.1:0")
+		if err != nil {
+			return "skip", err.Error()
+		}
+		closers = append(closers, func() { b.Close() })
+		srv.Net, srv.Addr = "tcp", b.Addr().String()
+	case "LS-udp-address-in-use":
+		b, err := net.ListenPacket("udp", "127.0.0.1:0")
+		if err != nil {
+			return "skip", err.Error()
+		}
+		closers = append(closers, func() { b.Close() })
+		srv.Net, srv.Addr = "udp", b.LocalAddr().String()
+	case "LS-bad-port":
+		srv.Net, srv.Addr = "tcp", "127.0.0.1:99999"
+	case "AS-no-listeners":
+		listen = false
+		srv.PacketConn, srv.Listener = nil, nil
+	case "AS-closed-udpconn":
+		listen = false
+		b, err := net.ListenPacket("udp", "127.0.0.1:0")
+		if err != nil {
+			return "skip", err.Error()
+		}
+		b.Close()
+		srv.PacketConn, srv.Listener = b, nil
+	}
+	res := make(chan error, 1)
+	go func() {
+		defer func() {
+			if r := recover(); r != nil {
+				res <- fmt.Errorf("start call panicked: %v", r)
+			}
+		}()
+		if listen {
+			res <- srv.ListenAndServe()
+		} else {
+			res <- srv.ActivateAndServe()
+		}
+	}()
+	select {
+	case err := <-res:
+		switch {
+		case err == nil:
+			return "ok", ""
+		case strings.Contains(err.Error(), "already started"):
+			return "se", err.Error()
+		default:
+			return "fl", err.Error()
+		}
+	case <-time.After(waitLong):
+		return "hung", ""
+	}
+}
+
+// expectNotStarted: Shutdown of a server that is not started (never started, its life over, its
+// start failed) must return the not-started error at once instead of blocking.  The context
+// only bounds the time a violating implementation costs; the unchanged code returns under the
+// lock without waiting for anything.
+func expectNotStarted(srv *dns.Server) (string, string) {
+	ctx, cancel := context.WithTimeout(context.Background(), 1500*time.Millisecond)
+	defer cancel()
+	err := srv.ShutdownContext(ctx)
+	switch {
+	case err == nil:
+		return "0", "nil"
+	case err == context.DeadlineExceeded || err == context.Canceled:
+		return "1", err.Error()
+	case strings.Contains(err.Error(), "not started"):
+		return "2", err.Error()
+	}
+	return "9", err.Error()
 }
 
 type holdPoint struct {
@@ -839,6 +956,9 @@ func (w *world) judge(name string, plan []string, fatalInjected bool) {
 	if len(lives) > 1 {
 		st["scenarios_with_restart_checked"]++
 	}
+	for _, v := range w.viols {
+		Viol(v[0], v[1], map[string]any{"scenario": name, "mode": w.mode, "plan": plan, "lives": lives})
+	}
 	for li, ev := range lives {
 		w.judgeLife(name, plan, fatalInjected, li, len(lives), ev)
 	}
@@ -993,6 +1113,8 @@ func (w *world) goroutinesBack(name string, base int, plan []string) {
 //	H<key> arm the hold point key (see armHold): the server thread that reaches that step of the
 //	     read loop stays there until the lock region of a Shutdown call has run (or the call is
 //	     blocked on srv.lock)           G<key> wait until a thread is there   L<key> let it go
+//	F<k> a start call that must fail by itself (kind k, see failStart), the server not serving
+//	E<j> Shutdown call j on the server while it is not started: must return the not-started error at once
 //	N    the life of the Server value is over (all calls returned, no goroutine left): the SAME
 //	     Server value gets a new listener / PacketConn; the following operations are its next life
 func runPlan(mode, name string, plan []string, attempt int) bool {
@@ -1007,7 +1129,7 @@ func runPlan(mode, name string, plan []string, attempt int) bool {
 	released := map[int]int{}
 	shut := false
 	for _, op := range plan {
-		if w.stuck != "" {
+		if w.stuck != "" || w.abort {
 			break
 		}
 		var a int
@@ -1016,7 +1138,60 @@ func runPlan(mode, name string, plan []string, attempt int) bool {
 		case 'S':
 			w.start(a)
 			if a == 0 {
-				w.waitFor("n", 1)
+				// no life of this Server value is running: the call must serve
+				d := time.Now().Add(waitLong)
+				for {
+					w.mu.Lock()
+					serving, refused := w.count("n") >= 1, w.count("se.0") > 0
+					w.mu.Unlock()
+					if serving {
+						break
+					}
+					if refused {
+						w.addViol("C13/start-refused-while-not-started", "a start of a Server value that is not serving (never started / previous life over / previous start failed) was refused with the already-started error")
+						w.abort = true
+						break
+					}
+					if time.Now().After(d) {
+						w.waitFor("n", 1)
+						break
+					}
+					time.Sleep(200 * time.Microsecond)
+				}
+			}
+		case 'F':
+			id := 50 + w.failSeq
+			w.failSeq++
+			w.log(fmt.Sprintf("si.%d", id))
+			cls, txt := failStart(w.srv, a)
+			switch cls {
+			case "fl":
+				w.log(fmt.Sprintf("fl.%d", id))
+				st["failed_starts_"+failKinds[a%len(failKinds)]]++
+			case "se":
+				w.log(fmt.Sprintf("se.%d", id))
+				w.addViol("C13/start-refused-while-not-started", "a start ("+failKinds[a%len(failKinds)]+") of a Server value that is not serving returned the already-started error: "+txt)
+			case "ok":
+				w.log("sr.0")
+				w.addViol("C13/failed-start-no-error", "a start call that cannot serve ("+failKinds[a%len(failKinds)]+") returned nil")
+			case "hung":
+				w.stuck = "a start call that cannot serve (" + failKinds[a%len(failKinds)] + ") did not return"
+			default:
+				// could not be provoked here: the call was not made
+				w.mu.Lock()
+				w.ev = w.ev[:len(w.ev)-1]
+				w.mu.Unlock()
+				st["failed_starts_not_provoked"]++
+			}
+		case 'E':
+			w.log(fmt.Sprintf("di.%d", a))
+			r, txt := expectNotStarted(w.srv)
+			if r == "1" {
+				w.log(fmt.Sprintf("dc.%d", a))
+			}
+			w.log(fmt.Sprintf("dr.%d.%s", a, r))
+			if r != "2" {
+				w.addViol("C13/shutdown-blocks-after-failed-start", "Shutdown of a Server value that is not started (never started / its life over / its start failed) did not return the not-started error at once: "+txt)
 			}
 		case 'C':
 			if mode == "tcp" {
@@ -1075,6 +1250,7 @@ func runPlan(mode, name string, plan []string, attempt int) bool {
 			w.releaseHold(op[1:])
 		case 'N':
 			if w.newLife(name, base, plan) {
+				w.failSeq = 0
 				reqCount, entered, released, shut = map[int]int{}, map[int]int{}, map[int]int{}, false
 			}
 		case 'Z':
@@ -1351,6 +1527,78 @@ func runC13(r *Rng, tier string, n int) {
 	restartWhileDraining("tcp", false)
 	restartWhileDraining("udp", false)
 	restartWhileDraining("tcp", true)
+	// ---- J. start calls that fail by themselves (ListenAndServe: bad network, tcp-tls without
+	//         certificates, address in use, bad port; ActivateAndServe: no listeners, closed UDPConn)
+	//         on a Server value that is not serving - never started, or its previous life over -,
+	//         followed by Shutdown (must return the not-started error at once), further failing
+	//         starts, and a retry that must serve a complete life
+	for _, mode := range []string{"tcp", "udp"} {
+		life := []string{"S0", "C1", "Q1", "D0", "R1", "Wdr.0.0", "Wsr.0"}
+		if mode == "udp" {
+			life = []string{"S0", "Q1", "D0", "R1", "Wdr.0.0", "Wsr.0"}
+		}
+		F := func(k int) string { return fmt.Sprintf("F%d", k%len(failKinds)) }
+		for k := range failKinds {
+			follow := [][]string{{}, {"E7"}, {"E7", "E8"}, {F(k + 1)}, {F(k + 2), "E7", F(k + 3)}}
+			for fi, f := range follow {
+				for _, pre := range []bool{false, true} {
+					var plan []string
+					nm := fmt.Sprintf("failed-start-%s-f%d", failKinds[k], fi)
+					if pre {
+						nm += "-after-a-life"
+						plan = append(append(plan, life...), "N")
+					}
+					plan = append(plan, F(k))
+					plan = append(plan, f...)
+					plan = append(plan, life...)
+					if (fi+k)%2 == 0 {
+						// and once more when the life is over, without handing out a new transport
+						plan = append(plan, F(k+4), "E9")
+					}
+					runPlan(mode, nm, plan, 0)
+					st["family_failed_start"]++
+				}
+			}
+		}
+	}
+	// ---- I. one Server value over real loopback sockets through ListenAndServe and
+	//         ActivateAndServe, across transports (srv.PacketConn / srv.Listener keep what the
+	//         previous lives left there), across failing starts, Shutdown of the unstarted server
+	{
+		oks := []string{"LS:udp", "LS:tcp", "LS:tcp-tls", "AS:udp", "AS:tcp", "AS:tcp-tls"}
+		for _, a := range oks {
+			for _, b := range oks {
+				realHistory([]string{a, b})
+			}
+		}
+		for k := range failKinds {
+			for oi, o := range oks {
+				h := []string{fmt.Sprintf("F:%d", k)}
+				if (k+oi)%2 == 0 {
+					h = append(h, "E")
+				}
+				realHistory(append(h, o))
+			}
+		}
+		nMixed := 12
+		if thorough {
+			nMixed = 150
+		}
+		for i := 0; i < nMixed; i++ {
+			h := []string{oks[r.Intn(len(oks))]}
+			for n := 1 + r.Intn(3); n > 0; n-- {
+				switch r.Intn(3) {
+				case 0:
+					h = append(h, fmt.Sprintf("F:%d", r.Intn(len(failKinds))))
+				case 1:
+					h = append(h, "E")
+				default:
+					h = append(h, oks[r.Intn(len(oks))])
+				}
+			}
+			realHistory(append(h, oks[r.Intn(len(oks))]))
+		}
+	}
 	// ---- D. real sockets: the same oracles, no model case; every Server value lives twice
 	for i := 0; i < 6; i++ {
 		realRun("udp", 1+i%3, i >= 3)
@@ -1647,32 +1895,120 @@ func restartWhileDraining(mode string, keepOpen bool) {
 }
 
 // ---------------------------------------------------------------- real loopback sockets
+var realHangs int
+
+var tlsOnce sync.Once
+var tlsCfg *tls.Config
+
+// serverTLS: a self-signed certificate for 127.0.0.1 made at run time
+func serverTLS() *tls.Config {
+	tlsOnce.Do(func() {
+		key, err := ecdsa.GenerateKey(elliptic.P256(), rand.Reader)
+		if err != nil {
+			return
+		}
+		tmpl := &x509.Certificate{SerialNumber: big.NewInt(1), Subject: pkix.Name{CommonName: "verif"},
+			NotBefore: time.Now().Add(-time.Hour), NotAfter: time.Now().Add(24 * time.Hour),
+			IPAddresses: []net.IP{net.ParseIP("127.0.0.1")}, KeyUsage: x509.KeyUsageDigitalSignature,
+			ExtKeyUsage: []x509.ExtKeyUsage{x509.ExtKeyUsageServerAuth}}
+		der, err := x509.CreateCertificate(rand.Reader, tmpl, tmpl, &key.PublicKey, key)
+		if err != nil {
+			return
+		}
+		tlsCfg = &tls.Config{Certificates: []tls.Certificate{{Certificate: [][]byte{der}, PrivateKey: key}}}
+	})
+	return tlsCfg
+}
+
+// realHistory: one Server value, a sequence of  LS:<net> / AS:<net>  (a complete life through
+// ListenAndServe / ActivateAndServe: double start refused, k handlers in flight, Shutdown or
+// ShutdownContext expiry, replies, serve call returns nil, Shutdown of the stopped server
+// refused, goroutines back),  F:<k>  (a start call that must fail by itself) and  E  (Shutdown
+// of the server while not started: not-started error at once).
+func realHistory(items []string) {
+	if realHangs >= 2 {
+		st["real_histories_skipped_after_confirmed_hangs"]++
+		return
+	}
+	srv := &dns.Server{}
+	in := map[string]any{"history_on_one_server_value": items}
+	life := 0
+	for idx, it := range items {
+		in["step"] = idx
+		switch {
+		case it == "E":
+			if r, txt := expectNotStarted(srv); r != "2" {
+				Viol("C13/shutdown-blocks-after-failed-start", "Shutdown of a Server value that is not started (never started / its life over / its start failed) did not return the not-started error at once: "+txt, in)
+			}
+			st["real_history_unstarted_shutdowns_checked"]++
+		case strings.HasPrefix(it, "F:"):
+			var k int
+			fmt.Sscanf(it[2:], "%d", &k)
+			in["failing_start"] = failKinds[k%len(failKinds)]
+			cls, txt := failStart(srv, k)
+			switch cls {
+			case "fl":
+				st["real_history_failed_starts_checked"]++
+			case "se":
+				Viol("C13/start-refused-while-not-started", "a start of a Server value that is not serving returned the already-started error: "+txt, in)
+			case "ok":
+				Viol("C13/failed-start-no-error", "a start call that cannot serve returned nil", in)
+				return
+			case "hung":
+				Viol("C13/failed-start-blocks", "a start call that cannot serve did not return", in)
+				realHangs++
+				return
+			}
+		default:
+			life++
+			infra := realOnce(srv, life, it[:2], it[3:], 1+idx%2, idx%3 == 2)
+			if infra != "" {
+				if infra != "hang" {
+					fmt.Fprintln(os.Stderr, "C13 real-socket history", items, "infrastructure problem:", infra)
+					st["real_history_infra_problems"]++
+				}
+				return
+			}
+			st["real_history_lives_checked"]++
+		}
+	}
+	st["real_histories_checked"]++
+}
+
 func realRun(network string, k int, withCtx bool) {
 	for attempt := 0; attempt < 2; attempt++ {
 		srv := &dns.Server{}
-		infra := realOnce(srv, 1, network, k, withCtx)
+		infra := realOnce(srv, 1, "AS", network, k, withCtx)
 		if infra == "" {
 			st["real_runs_checked"]++
 			// the second life of the same Server value, new socket
-			infra = realOnce(srv, 2, network, 1+(k%3), !withCtx)
+			infra = realOnce(srv, 2, "AS", network, 1+(k%3), !withCtx)
 			if infra == "" {
 				st["real_restart_runs_checked"]++
 				return
 			}
+		}
+		if infra == "hang" {
+			return
 		}
 		fmt.Fprintln(os.Stderr, "C13 real-socket run: infrastructure problem:", infra)
 		st["real_infra_retries"]++
 	}
 }
 
-func realOnce(srv *dns.Server, life int, network string, k int, withCtx bool) string {
+// realOnce: one life of srv over real loopback sockets.  how = "AS": the harness opens the
+// socket and calls ActivateAndServe (an AS tcp life clears srv.PacketConn, which would take
+// precedence; an AS udp life leaves srv.Listener as the previous life left it); how = "LS":
+// srv.Net / srv.Addr are set and ListenAndServe opens the socket itself - srv.PacketConn and
+// srv.Listener are left exactly as the previous lives of this Server value left them.
+// network: udp | tcp | tcp-tls.  Returns "" or an infrastructure problem (never a verdict).
+func realOnce(srv *dns.Server, life int, how, network string, k int, withCtx bool) string {
 	base := runtime.NumGoroutine()
 	var mu sync.Mutex
 	var ev []string
 	logf := func(s string) { mu.Lock(); ev = append(ev, s); mu.Unlock() }
 	gate := make(chan struct{}, 16)
 	entered := make(chan struct{}, 16)
-	srv.PacketConn, srv.Listener = nil, nil
 	started := make(chan struct{})
 	srv.NotifyStartedFunc = func() { close(started) }
 	srv.Handler = dns.HandlerFunc(func(w dns.ResponseWriter, req *dns.Msg) {
@@ -1685,20 +2021,34 @@ func realOnce(srv *dns.Server, life int, network string, k int, withCtx bool) st
 		logf(fmt.Sprintf("hx.%d", req.Id))
 	})
 	var addr string
-	if network == "udp" {
+	in0 := map[string]any{"network": network, "start": how, "life_of_the_server_value": life}
+	if network == "tcp-tls" {
+		srv.TLSConfig = serverTLS()
+		if srv.TLSConfig == nil {
+			return "no TLS certificate"
+		}
+	}
+	switch {
+	case how == "LS":
+		srv.Net, srv.Addr = network, "127.0.0.1:0"
+	case network == "udp":
 		pc, err := net.ListenPacket("udp", "127.0.0.1:0")
 		if err != nil {
 			return err.Error()
 		}
 		srv.PacketConn = pc
 		addr = pc.LocalAddr().String()
-	} else {
+	default:
 		l, err := net.Listen("tcp", "127.0.0.1:0")
 		if err != nil {
 			return err.Error()
 		}
-		srv.Listener = l
 		addr = l.Addr().String()
+		if network == "tcp-tls" {
+			l = tls.NewListener(l, srv.TLSConfig)
+		}
+		srv.Listener = l
+		srv.PacketConn = nil
 	}
 	served := make(chan error, 1)
 	go func() {
@@ -1707,12 +2057,32 @@ func realOnce(srv *dns.Server, life int, network string, k int, withCtx bool) st
 				served <- fmt.Errorf("serve call panicked: %v", r)
 			}
 		}()
-		served <- srv.ActivateAndServe()
+		if how == "LS" {
+			served <- srv.ListenAndServe()
+		} else {
+			served <- srv.ActivateAndServe()
+		}
 	}()
 	select {
 	case <-started:
+	case err := <-served:
+		// no life of this Server value is running (the previous ones are over, or their start failed)
+		if err != nil && strings.Contains(err.Error(), "already started") {
+			in0["error"] = err.Error()
+			Viol("C13/start-refused-while-not-started", "a start of a Server value that is not serving (previous life over / previous start failed) was refused with the already-started error", in0)
+			return ""
+		}
+		return "server did not start: " + fmt.Sprint(err)
 	case <-time.After(waitLong):
 		return "server did not start"
+	}
+	if how == "LS" {
+		// (set under srv.lock before NotifyStartedFunc ran)
+		if network == "udp" {
+			addr = srv.PacketConn.LocalAddr().String()
+		} else {
+			addr = srv.Listener.Addr().String()
+		}
 	}
 	// second start must fail at once
 	t0 := time.Now()
@@ -1729,7 +2099,13 @@ func realOnce(srv *dns.Server, life int, network string, k int, withCtx bool) st
 	}
 	var cls []cl
 	for i := 0; i < k; i++ {
-		c, err := dns.DialTimeout(network, addr, 5*time.Second)
+		var c *dns.Conn
+		var err error
+		if network == "tcp-tls" {
+			c, err = dns.DialTimeoutWithTLS("tcp-tls", addr, &tls.Config{InsecureSkipVerify: true}, 5*time.Second)
+		} else {
+			c, err = dns.DialTimeout(network, addr, 5*time.Second)
+		}
 		if err != nil {
 			return "dial: " + err.Error()
 		}
@@ -1769,7 +2145,7 @@ func realOnce(srv *dns.Server, life int, network string, k int, withCtx bool) st
 		}
 		sd <- err
 	}()
-	in := map[string]any{"network": network, "handlers_in_flight": k, "ctx_expiry": withCtx, "life_of_the_server_value": life}
+	in := map[string]any{"network": network, "start": how, "handlers_in_flight": k, "ctx_expiry": withCtx, "life_of_the_server_value": life}
 	if withCtx {
 		cancel()
 		select {
@@ -1792,7 +2168,8 @@ func realOnce(srv *dns.Server, life int, network string, k int, withCtx bool) st
 			}
 		case <-time.After(waitLong):
 			Viol("C13/shutdown-hangs", "Shutdown did not return after all handlers returned (real sockets)", in)
-			return ""
+			realHangs++
+			return "hang"
 		}
 	}
 	select {
@@ -1802,7 +2179,8 @@ func realOnce(srv *dns.Server, life int, network string, k int, withCtx bool) st
 		}
 	case <-time.After(waitLong):
 		Viol("C13/serve-did-not-return", "the serve call did not return after Shutdown (real sockets)", in)
-		return ""
+		realHangs++
+		return "hang"
 	}
 	// replies of the in-flight handlers are delivered (after a context expiry
 	// ShutdownContext has closed the UDP socket: nothing to expect there)
